@@ -22,6 +22,8 @@ import (
 	"sync"
 	"sync/atomic"
 	"time"
+
+	"verifshim/vsync"
 )
 
 // Fail describes one oracle failure. Sig names the broken clause and the coarse input class
@@ -345,14 +347,24 @@ func (t *T) fail(desc string, f *Fail, recheck func() *Fail) {
 	v = &violation{Part: t.name, Sig: sig, Case: desc, Detail: f.Detail, Count: 1}
 	t.r.violations[sig] = v
 	t.r.mu.Unlock()
-	if recheck != nil && !f.Sampled {
+	if recheck != nil && !f.Sampled && !strings.HasPrefix(f.Sig, "hang:") {
 		for i := 0; i < 5; i++ {
 			g := t.safe(recheck)
-			if g == nil || g.Sig != f.Sig {
+			if g == nil {
+				// the same case passed on a re-run: not a believable violation but an
+				// infrastructure error (uncaptured nondeterminism)
 				t.r.mu.Lock()
-				t.r.diverged = append(t.r.diverged, fmt.Sprintf("%s case=%q: first run failed with %q, re-run %d gave %v", sig, desc, f.Sig, i, g))
+				t.r.diverged = append(t.r.diverged, fmt.Sprintf("%s case=%q: first run failed with %q, re-run %d passed", sig, desc, f.Sig, i))
+				delete(t.r.violations, sig)
 				t.r.mu.Unlock()
 				return
+			}
+			// failing every time but under another signature (e.g. the wire is corrupted by
+			// bytes that depend on a random mask): still a violation; the first signature stands
+			if g.Sig != f.Sig {
+				t.r.mu.Lock()
+				v.Detail += fmt.Sprintf("\n(note: re-run %d failed with signature %q)", i, g.Sig)
+				t.r.mu.Unlock()
 			}
 		}
 	}
@@ -683,6 +695,9 @@ func Main(prop string, register func(r *Run)) {
 		os.Exit(0)
 	}
 	fmt.Printf("== %s tier=%s workers=%d\n", prop, *tier, r.Workers)
+	// pooled objects are never shared between the parallel workers of a sequential check and
+	// are poisoned when the library puts them back (C17/C18/C19 select their own modes)
+	vsync.SetMode(vsync.FreshPoison)
 	register(r)
 	code := r.finish(!*noEvidence)
 	os.Exit(code)
@@ -824,3 +839,53 @@ func firstLines(s string, n int) string {
 
 // StatesSoFar returns the states counted so far in this part.
 func (t *T) StatesSoFar() int64 { return atomic.LoadInt64(&t.states) }
+
+var (
+	hangMu   sync.Mutex
+	hangSeen = map[string]bool{}
+)
+
+// WithTimeout runs fn on its own goroutine and reports whether it finished within d. A
+// function that does not come back is a hang of the code under test (the goroutine cannot be
+// stopped; it is left spinning until the process exits). Callers use a generous d and
+// confirm with one more attempt before reporting, so that a loaded machine cannot produce a
+// false alarm.
+func WithTimeout(d time.Duration, fn func()) (finished bool) {
+	done := make(chan struct{})
+	go func() {
+		defer func() {
+			recover()
+			close(done)
+		}()
+		fn()
+	}()
+	select {
+	case <-done:
+		return true
+	case <-time.After(d):
+		return false
+	}
+}
+
+// Hang runs fn under WithTimeout; on a timeout it tries once more with twice the time and
+// only then returns a Fail with signature "hang:"+what.
+func Hang(what string, d time.Duration, fn func()) *Fail {
+	hangMu.Lock()
+	seen := hangSeen[what]
+	hangMu.Unlock()
+	if seen {
+		// one established hang per entry point is enough: every further one would leave
+		// another goroutine spinning and cost the full timeout again
+		return nil
+	}
+	if WithTimeout(d, fn) {
+		return nil
+	}
+	if WithTimeout(2*d, fn) {
+		return nil
+	}
+	hangMu.Lock()
+	hangSeen[what] = true
+	hangMu.Unlock()
+	return &Fail{Sig: "hang:" + what, Detail: fmt.Sprintf("no return within %v (and within %v on a second attempt): the call loops without consuming input", d, 2*d), Sampled: true}
+}
